@@ -123,8 +123,9 @@ def run(chk, facts, tier, only=None):
         chk.expect(ok, "index-in-range", "IndexType::to_type must reject a table index >= the table length (`v >= len` ⇒ error)")
         # service methods must be function types
         h = c.fn(r"binary_parser::Table::to_env$")
-        hasfunc = "Func" in variant_paths_all(h["body"]) and any(is_err_body(n.get("e")) for n in nodes(h["body"], "ret") if n.get("e")) \
-            and any(n.get("k") == "continue" for n in walk(h["body"]))
+        # inside the loop over the methods of a service entry: a test that mentions TypeInner::Func and an error return
+        loops = [m for m in nodes(h["body"], "match") if m.get("src") == "ForLoopDesugar"]
+        hasfunc = any("Func" in variant_paths_all(lp) and any(is_err_body(n.get("e")) for n in nodes(lp, "ret") if n.get("e")) for lp in loops)
         chk.expect(hasfunc, "methods-are-functions",
                    "Table::to_env must reject a service whose method type is not (a reference to) a function type")
         # trailing bytes
